@@ -154,6 +154,26 @@ def sanitize(elems):
                 e.pop('E', None)
 
 
+def complete_data(elems, rnd):
+    """give every mated gear pair complete data (same module, face widths, elastic moduli; worm reference diameter) so that force and
+    both stresses are recorded"""
+    for i in range(1, len(elems)):
+        e, p = elems[i], elems[i - 1]
+        if e['rel']['type'] == 'gear':
+            m = p.get('module') or e.get('module') or sig(rnd.uniform(3e-4, 4e-3))
+            for g in (p, e):
+                g['module'] = m
+                g.setdefault('b', sig(rnd.uniform(2e-3, 3e-2)))
+                if g['kind'] != 'WormWheel':
+                    g.setdefault('E', sig(rnd.uniform(5e10, 3e11)))
+        elif e['rel']['type'] == 'worm':
+            worm, wheel = (p, e) if p['kind'] == 'WormGear' else (e, p)
+            worm.setdefault('dref', sig(rnd.uniform(5e-3, 5e-2)))
+            wheel.setdefault('module', sig(rnd.uniform(3e-4, 4e-3)))
+            wheel.setdefault('b', sig(rnd.uniform(2e-3, 3e-2)))
+    sanitize(elems)
+
+
 def ratio_prod(elems):
     r = F(1)
     for i in range(1, len(elems)):
